@@ -556,6 +556,9 @@ func genOverflowCase(rr *h.Rand, capacity int) hubCase {
 	return cs
 }
 
+// histCompared: how often the stream of the first '*' watcher was compared with the hub's history (evidence counter).
+var histCompared int
+
 func hubOracles(hr *hubRun, cs hubCase, o *gen.Oracle) []h.Violation {
 	var vs []h.Violation
 	add := func(key, what string) {
@@ -895,7 +898,10 @@ func hubOracles(hr *hubRun, cs hubCase, o *gen.Oracle) []h.Violation {
 					for _, e := range sseParse(hr.conns[0].w.Body()) {
 						got = append(got, e.ID)
 					}
-					if len(got) == len(want) {
+					// what was accepted before the watcher registered is not on its stream: its stream is a suffix of the history
+					if len(got) <= len(want) {
+						want = want[len(want)-len(got):]
+						histCompared++
 						for i := range want {
 							if got[i] != want[i] {
 								for _, k := range []string{"C05", "C06"} {
